@@ -213,6 +213,9 @@ func rep(t *rt.Thread, c *rt.GoCont) (rt.Cont, error) {
 			// Overflow
 			return nil, errors.New("rep causes overflow")
 		}
+		if tooLarge(n * len(ls)) {
+			return nil, errTooLarge
+		}
 		t.RequireBytes(n * len(ls))
 		return c.PushingNext1(t.Runtime, rt.StringValue(strings.Repeat(string(ls), n))), nil
 	}
@@ -223,6 +226,9 @@ func rep(t *rt.Thread, c *rt.GoCont) (rt.Cont, error) {
 	sz := sz1 + sz2
 	if sz1/n != len(s) || sz2/(n-1) != len(sep) || sz < 0 {
 		return nil, errors.New("rep causes overflow")
+	}
+	if tooLarge(sz) {
+		return nil, errTooLarge
 	}
 	if sz == 0 {
 		// Nothing to build: do not loop n times for free
@@ -240,6 +246,15 @@ func rep(t *rt.Thread, c *rt.GoCont) (rt.Cont, error) {
 		builder.Write(s)
 	}
 	return c.PushingNext1(t.Runtime, rt.StringValue(builder.String())), nil
+}
+
+var errTooLarge = errors.New("resulting string too large")
+
+// tooLarge returns true if a string of length sz cannot possibly be allocated:
+// the Go runtime does not address more than 48 bits and panics when asked for
+// more, whereas a Lua program expects an error.
+func tooLarge(sz int) bool {
+	return uint64(sz) >= 1<<47
 }
 
 func reverse(t *rt.Thread, c *rt.GoCont) (rt.Cont, error) {
